@@ -13,8 +13,22 @@ chunks; the set of chunk-locations is the whole grid unless something above cull
 For two-input calls without chunks= an HONEST block function (`FnLike`: shaped like the first input with the most
 blocks along every axis, the documented default block structure) is used half of the time: the shape it produces
 must be block_info[None]['chunk-shape'] (lifts a tie-break disagreement of `bi.mb` to a concrete failing call).
+Keyword stream (harness/props_ext/c20_kwargs.py): every run enumerates the full product of call modes (chunks=, new_axis with
+ONE or SEVERAL chunks on the created axis, implicit new axes, drop_axis, drop+new, drop+chunks) x what feeds the call (from_array /
+fusable elementwise on one or all inputs / binary elementwise / rechunk) x what consumes it (nothing / elementwise / binary
+elementwise / culling slice / reduction / a second recorded map_blocks), with 0-3 right-aligned inputs of MIXED rank, int /
+negative / list spellings, enforce_ndim, meta, name, token, non-array positional arguments (block_info is keyed by argument
+position) and block_info / block_id / both consumers; the value a block function returns also encodes the identity it was told,
+so a payload looked up at another grid position changes the result even when shapes agree.  Every block of the grid must be
+produced unless a slice above culls.  The advertised output chunks are compared with the documented ones.
+Task-path probe: for every clean optimized program the payload `Blockwise._task` (the path taken when the call is fused) hands
+to each block id is read off the expression; a lookup that is not the block's own is lifted to a real fused computation
+(an elementwise op directly above the call) and reported only when that computation fails the checks above.
+A call that only the payload builder refuses (the same call constructs with a function taking neither keyword) is reported as
+`payload-construction-raises`.
 Correspondence: Lean model (Model/BlockInfo.lean, driver `bi.*`) vs recorded payloads, the real
-`map_blocks` output chunks and `ChunksFreeze.lower_once`.
+`map_blocks` output chunks and `ChunksFreeze.lower_once`; the keyword stream feeds the same families (drop_axis, new_axis,
+chunks=, mixed ranks are all inside the model; fusion, enforce_ndim, meta, name, token are search-only).
 """
 from __future__ import annotations
 
@@ -36,6 +50,74 @@ def extents(chunks_axis):
         out.append((s, s + int(c)))
         s += int(c)
     return out
+
+
+def as_axes(v):
+    """kwarg spelled as an int or as a list -> list (None stays None)"""
+    if v is None:
+        return None
+    return [int(v)] if isinstance(v, int) else [int(a) for a in v]
+
+
+def step_drop(step, nd):
+    """drop_axis of a step (int / list / negative members) as sorted non-negative positions of the `nd`-d label tuple"""
+    return [d % nd for d in (as_axes(step.get("drop_axis")) or [])] if nd else []
+
+
+def step_new(step):
+    return as_axes(step.get("new_axis"))
+
+
+def arg_positions(n_arrays, scalars):
+    """positions of the array arguments in the final positional argument list; `scalars` = [[position, value], …]
+    (positions in the FINAL list, ascending).  block_info is keyed by these positions."""
+    spos = {int(p) for p, _ in (scalars or [])}
+    out, pos = [], 0
+    for _ in range(n_arrays):
+        while pos in spos:
+            pos += 1
+        out.append(pos)
+        pos += 1
+    return out
+
+
+def id_code(block_id, out_location):
+    """value contribution of the identity the block function was TOLD it has (steps with idval)"""
+    c = 0
+    if block_id is not None:
+        c += sum(11 * (k + 1) * int(v) for k, v in enumerate(block_id))
+    if out_location is not None:
+        c += sum(13 * (k + 1) * int(v) for k, v in enumerate(out_location))
+    return c
+
+
+def expected_out_chunks(step, layouts):
+    """Output chunks map_blocks must advertise (documentation): an explicit chunks= entry wins (an int is repeated
+    once per block of that axis); a created axis without chunks= is one chunk of length 1; otherwise the chunks of
+    the first input with the most blocks along that axis."""
+    nd = max([len(l) for l in layouts], default=0)
+    drop = step_drop(step, nd)
+    spec = step.get("chunks")
+    out_ind, new_labels = out_labels([len(l) for l in layouts], drop, step_new(step), spec)
+    out = []
+    for pos, lab in enumerate(out_ind):
+        if lab in new_labels:
+            base = None
+        else:
+            base = None
+            for l in layouts:
+                ax = len(l) - 1 - lab
+                if ax >= 0 and (base is None or len(l[ax]) > len(base)):
+                    base = tuple(l[ax])
+        if spec is not None:
+            e = spec[pos]
+            if isinstance(e, (list, tuple)):
+                out.append(tuple(int(v) for v in e))
+            else:
+                out.append((int(e),) * (1 if base is None else len(base)))
+        else:
+            out.append((1,) if base is None else base)
+    return tuple(out)
 
 
 def out_labels(ndims, drop, new_axis, chunks_spec):
@@ -81,11 +163,12 @@ class Recorder:
         self.lock = threading.Lock()
         self.live = False
         self.calls = []
+        self.last_uid = None
 
-    def body(self, blocks, block_info, block_id, ret_shape=None):
+    def body(self, blocks, block_info, block_id, ret_shape=None, idval=False, uid=None):
         entry = None
         if self.live:
-            entry = {"blocks": [np.array(b, copy=True) for b in blocks], "block_info": block_info, "block_id": block_id}
+            entry = {"blocks": [np.array(b, copy=True) for b in blocks], "block_info": block_info, "block_id": block_id, "uid": uid}
             if ret_shape is not None:
                 entry["ret_shape"] = tuple(int(v) for v in ret_shape)
         # value: depends only on the delivered blocks (so a NumPy oracle can be computed from the
@@ -94,14 +177,16 @@ class Recorder:
         for i, b in enumerate(blocks):
             code += (i + 1) * int(np.asarray(b).sum())
         shp = tuple(block_info[None]["chunk-shape"]) if (block_info is not None and None in block_info) else None
+        if idval:
+            code += id_code(block_id, block_info[None]["chunk-location"] if (block_info is not None and None in block_info) else None)
         if entry is not None:
             with self.lock:
                 self.calls.append(entry)
         return code, shp
 
-    def make(self, kw):
+    def make(self, kw, idval=False):
         """kw in {'info', 'id', 'both'}: which keywords the block function accepts."""
-        return {"info": FnInfo, "id": FnId, "both": FnBoth}[kw](self)
+        return {"info": FnInfo, "id": FnId, "both": FnBoth, "plain": FnPlain}[kw](self, idval)
 
 
 class _Fn:
@@ -111,9 +196,17 @@ class _Fn:
 
     __name__ = "recfn"
 
-    def __init__(self, rec):
+    def __init__(self, rec, idval=False):
         self.rec = rec
         self.uid = next(_UID)
+        self.idval = idval  # the value also encodes the block identity the function was told
+        self.out_chunks = None  # the chunks= the caller passed / the advertised output chunks (set right after the call)
+
+    def _fallback_shape(self, blocks, block_id):
+        """a function that is not told the chunk shape (block_id only): the caller knows the output chunks it asked for"""
+        if self.out_chunks is not None and block_id is not None and len(block_id) == len(self.out_chunks):
+            return tuple(int(c[j]) for c, j in zip(self.out_chunks, block_id))
+        return np.asarray(blocks[0]).shape if blocks else ()
 
     def __dask_tokenize__(self):
         return (type(self).__name__, self.uid, id(self.rec))
@@ -128,20 +221,28 @@ def _identity(x):
 
 class FnInfo(_Fn):
     def __call__(self, *blocks, block_info=None):
-        code, shp = self.rec.body(blocks, block_info, None)
-        return np.full(shp if shp is not None else np.asarray(blocks[0]).shape, code, dtype=np.int64)
+        code, shp = self.rec.body(blocks, block_info, None, idval=self.idval, uid=self.uid)
+        return np.full(shp if shp is not None else self._fallback_shape(blocks, None), code, dtype=np.int64)
 
 
 class FnId(_Fn):
     def __call__(self, *blocks, block_id=None):
-        code, shp = self.rec.body(blocks, None, block_id)
-        return np.full(np.asarray(blocks[0]).shape, code, dtype=np.int64)
+        code, shp = self.rec.body(blocks, None, block_id, idval=self.idval, uid=self.uid)
+        return np.full(self._fallback_shape(blocks, block_id), code, dtype=np.int64)
 
 
 class FnBoth(_Fn):
     def __call__(self, *blocks, block_info=None, block_id=None):
-        code, shp = self.rec.body(blocks, block_info, block_id)
-        return np.full(shp if shp is not None else np.asarray(blocks[0]).shape, code, dtype=np.int64)
+        code, shp = self.rec.body(blocks, block_info, block_id, idval=self.idval, uid=self.uid)
+        return np.full(shp if shp is not None else self._fallback_shape(blocks, block_id), code, dtype=np.int64)
+
+
+class FnPlain(_Fn):
+    """block function WITHOUT block_info / block_id (used only to attribute a refusal at construction: does the same
+    call construct when no payload has to be built?)"""
+
+    def __call__(self, *blocks):
+        return np.zeros(np.asarray(blocks[0]).shape if blocks else (), dtype=np.int64)
 
 
 class FnLike(_Fn):
@@ -151,12 +252,12 @@ class FnLike(_Fn):
     (one (input, axis) per output axis) is computed from the inputs' block COUNTS at call time, by this file."""
 
     def __init__(self, rec, leaders):
-        super().__init__(rec)
+        super().__init__(rec, False)
         self.leaders = leaders
 
     def __call__(self, *blocks, block_info=None, block_id=None):
         shape = tuple(int(np.asarray(blocks[i]).shape[ax]) for i, ax in self.leaders)
-        code, _ = self.rec.body(blocks, block_info, block_id, ret_shape=shape)
+        code, _ = self.rec.body(blocks, block_info, block_id, ret_shape=shape, uid=self.uid)
         return np.full(shape, code, dtype=np.int64)
 
 
@@ -180,32 +281,60 @@ def mb_call(step, inputs, rec):
 
     if step.get("like"):
         f = FnLike(rec, leaders_of([tuple(len(c) for c in a.chunks) for a in inputs]))
+        rec.last_uid = f.uid
         return da.map_blocks(f, *inputs, dtype=np.int64)
-    f = rec.make(step["kw"])
+    f = rec.make(step["kw"], bool(step.get("idval")))
+    rec.last_uid = f.uid
     kwargs = {"dtype": np.int64}
     if step.get("chunks") is not None:
         kwargs["chunks"] = tuple(tuple(c) if isinstance(c, list) else int(c) for c in step["chunks"])
     if step.get("new_axis") is not None:
-        kwargs["new_axis"] = list(step["new_axis"])
-    if step.get("drop_axis"):
-        kwargs["drop_axis"] = list(step["drop_axis"])
-    if step.get("method") and len(inputs) == 1:
-        return inputs[0].map_blocks(f, **kwargs)
-    return da.map_blocks(f, *inputs, **kwargs)
+        na = step["new_axis"]
+        kwargs["new_axis"] = int(na) if isinstance(na, int) else list(na)
+    if step.get("drop_axis") is not None and step.get("drop_axis") != []:
+        dr = step["drop_axis"]
+        kwargs["drop_axis"] = int(dr) if isinstance(dr, int) else list(dr)
+    if step.get("enforce_ndim"):
+        kwargs["enforce_ndim"] = True
+    if step.get("name"):
+        kwargs["name"] = str(step["name"])
+    if step.get("token"):
+        kwargs["token"] = str(step["token"])
+    if step.get("meta"):
+        layouts = [a.chunks for a in inputs]
+        nd = max([len(l) for l in layouts], default=0)
+        out_ind, _ = out_labels([len(l) for l in layouts], step_drop(step, nd), step_new(step), step.get("chunks"))
+        kwargs["meta"] = np.empty((0,) * len(out_ind), dtype=np.int64)
+    args = list(inputs)
+    for pos, val in step.get("scalars") or []:
+        args.insert(int(pos), int(val))
+    if step.get("method") and len(args) == 1:
+        y = inputs[0].map_blocks(f, **kwargs)
+    else:
+        y = da.map_blocks(f, *args, **kwargs)
+    f.out_chunks = tuple(tuple(int(v) for v in c) for c in y.chunks)
+    return y
 
 
 def mb_numpy(step, np_inputs, layouts, out_chunks):
     """NumPy value of the map_blocks step, by brute force from the CALL-TIME layouts."""
-    drop = [d % max(len(l) for l in layouts) for d in (step.get("drop_axis") or [])]
-    out_ind, _ = out_labels([len(l) for l in layouts], drop, step.get("new_axis"), step.get("chunks"))
+    nd = max([len(l) for l in layouts], default=0)
+    drop = step_drop(step, nd)
+    out_ind, _ = out_labels([len(l) for l in layouts], drop, step_new(step), step.get("chunks"))
     shape = tuple(sum(c) for c in out_chunks)
     y = np.zeros(shape, dtype=np.int64)
+    arrpos = arg_positions(len(layouts), step.get("scalars"))
+    kw = step.get("kw")
     for bid in itertools.product(*[range(len(c)) for c in out_chunks]):
         code = 0
         for i, (x, lay) in enumerate(zip(np_inputs, layouts)):
             _, _, _, aloc = expected_input_info(lay, out_ind, bid, bool(drop))
             blk = x[tuple(slice(a, b) for a, b in aloc)]
-            code += (i + 1) * int(blk.sum())
+            code += (arrpos[i] + 1) * int(blk.sum())
+        for pos, val in step.get("scalars") or []:
+            code += (int(pos) + 1) * int(val)
+        if step.get("idval"):
+            code += id_code(bid if kw in ("id", "both") else None, bid if kw in ("info", "both") else None)
         osl = tuple(slice(*extents(c)[j]) for c, j in zip(out_chunks, bid))
         y[osl] = code
     return y
@@ -229,11 +358,24 @@ def run_dask(prog, rec):
                 "shapes": [tuple(int(s) for s in a.shape) for a in ins],
                 "out_chunks": tuple(tuple(int(v) for v in c) for c in y.chunks),
                 "step": step,
+                "uid": rec.last_uid,  # recorded invocations carry the uid of the function object of THIS call
             }
             env[step["out"]] = y
         else:
             env[step["out"]] = P.apply_step(step, env, da, True)
     return env, cap
+
+
+def constructs_plain(prog):
+    """does the program construct when the map_blocks function takes neither block_info nor block_id?"""
+    plain = [dict(st, kw="plain", like=False) if st["op"] == "mb_rec" else st for st in prog]
+    try:
+        with warnings.catch_warnings():
+            warnings.simplefilter("ignore")
+            run_dask(plain, Recorder())
+    except Exception:
+        return False
+    return True
 
 
 def run_numpy(prog, cap):
@@ -255,12 +397,14 @@ def check_calls(calls, c, npenv, expect_full_grid):
     step = c["step"]
     layouts, out_chunks = c["layouts"], c["out_chunks"]
     bad = []
-    nd = max(len(l) for l in layouts)
-    drop = [d % nd for d in (step.get("drop_axis") or [])]
-    out_ind, _ = out_labels([len(l) for l in layouts], drop, step.get("new_axis"), step.get("chunks"))
+    nd = max([len(l) for l in layouts], default=0)
+    drop = step_drop(step, nd)
+    out_ind, _ = out_labels([len(l) for l in layouts], drop, step_new(step), step.get("chunks"))
     grid = set(itertools.product(*[range(len(cc)) for cc in out_chunks]))
     seen = set()
     xs = [npenv[a] for a in step["args"]]
+    arrpos = arg_positions(len(layouts), step.get("scalars"))
+    nargs = len(layouts) + len(step.get("scalars") or [])
     for call in calls:
         bi, bid0 = call["block_info"], call["block_id"]
         bid = None
@@ -299,7 +443,21 @@ def check_calls(calls, c, npenv, expect_full_grid):
                 bad.append(("output-info:chunk-shape-vs-produced",
                             f"block {bid}: block_info[None]['chunk-shape'] {got['chunk-shape']} but a function shaped like the first input "
                             f"with the most blocks produces {call['ret_shape']} (call-time input layouts {layouts}, advertised output chunks {out_chunks})"))
-        for i, (lay, x) in enumerate(zip(layouts, xs)):
+        if len(call["blocks"]) != nargs:
+            bad.append(("argument-count", f"block {bid}: function received {len(call['blocks'])} positional arguments, the call had {nargs}"))
+            continue
+        for pos, val in step.get("scalars") or []:
+            got_s = call["blocks"][int(pos)]
+            if got_s.shape != () or int(got_s) != int(val):
+                bad.append(("scalar-argument", f"block {bid}: positional argument {pos} is {got_s!r}, the call passed {val}"))
+            if bi is not None and int(pos) in bi:
+                bad.append(("input-info:non-array-key", f"block {bid}: block_info has an entry for the non-array argument {pos}"))
+        if bi is not None:
+            extra = sorted(k for k in bi if k is not None and k not in arrpos)
+            if extra:
+                bad.append(("input-info:extra-key", f"block {bid}: block_info keys {extra} are not positions of array arguments {arrpos}"))
+        for i0, (lay, x) in enumerate(zip(layouts, xs)):
+            i = arrpos[i0]
             shp, nch, k, aloc = expected_input_info(lay, out_ind, bid, bool(drop))
             blk = call["blocks"][i]
             want_shape = tuple(b - a for a, b in aloc)
@@ -436,9 +594,13 @@ def gen_case(rng):
         yname = g.add(ysrc)
         step["args"] = [x, yname] if rng.random() < 0.7 else [yname, x]
         step["method"] = False
-        if rng.random() < 0.5:
+        m2 = rng.random()
+        if m2 < 0.45:
             step["like"] = True  # honest first-input-shaped function: the advertised output layout must be what it produces
             step["kw"] = "both"
+        elif m2 < 0.7 and nd >= 2:
+            # drop_axis with inputs of different rank (labels, not positions, decide what is concatenated)
+            step["drop_axis"] = [rng.randrange(nd)]
     elif r < 0.45 and nd >= 2:
         step["drop_axis"] = [rng.randrange(nd)]
     elif r < 0.6 and nd <= 2:
@@ -447,7 +609,8 @@ def gen_case(rng):
         if rng.random() < 0.5:
             # explicit chunks for all axes incl. the new one
             spec = [list(c) for c in xl]
-            spec.insert(ax, rng.choice([1, 2, 3]))
+            # the created axis: one chunk (int) or SEVERAL chunks (tuple)
+            spec.insert(ax, rng.choice([1, 2, 3]) if rng.random() < 0.4 else [rng.randint(1, 3) for _ in range(rng.choice([2, 2, 3]))])
             step["chunks"] = spec
     elif r < 0.8:
         spec = []
@@ -469,6 +632,9 @@ def gen_case(rng):
         try:
             denv, cap = run_dask(g.prog + [step], Recorder())
         except Exception:
+            if constructs_plain(g.prog + [step]):
+                # only the block_info/block_id payload builder refuses this call: evaluate() reports it
+                return g.prog + [step], None, step["out"]
             return None
     c = cap[step["out"]]
     try:
@@ -518,7 +684,37 @@ def classify_known(prog, message):
     return None
 
 
-def evaluate(prog, root, opt):
+def probe_task_path(y, out_chunks):
+    """The payload the per-block task path (`Blockwise._task`, used when the call is fused with a neighbour) looks up
+    for every block id of the advertised grid.  Returns None when that path does not apply to this call (concatenation
+    along dropped axes is never fused; internals renamed), else a list of (block id, description) where the looked-up
+    block_id / block_info[None]['chunk-location'] is not the block id asked for.  A probe only: a mismatch is lifted to
+    a real fused computation by `evaluate` before anything is reported."""
+    expr = getattr(y, "expr", None)
+    if expr is None or not hasattr(expr, "_task") or getattr(expr, "concatenate", False):
+        return None
+    bad = []
+    try:
+        for bid in itertools.product(*[range(len(c)) for c in out_chunks]):
+            t = expr._task((expr._name,) + tuple(bid), tuple(bid))
+            a = list(t.args)
+            k = next((i for i, v in enumerate(a) if isinstance(v, tuple) and v and all(isinstance(n, str) for n in v)
+                      and set(v) <= {"block_id", "block_info", "_overlap_trim_info"}), None)
+            if k is None:
+                return None
+            for name, payload in zip(a[k], a[k + 1:]):
+                if name == "block_id" and tuple(payload) != tuple(bid):
+                    bad.append((bid, f"task path hands block_id {tuple(payload)} to block {bid}"))
+                if name == "block_info" and tuple(payload[None]["chunk-location"]) != tuple(bid):
+                    bad.append((bid, f"task path hands the block_info of block {tuple(payload[None]['chunk-location'])} to block {bid}"))
+    except NotImplementedError:
+        return None
+    except Exception:
+        return None
+    return bad
+
+
+def evaluate(prog, root, opt, probe=True):
     """Run one program under one optimize setting.  Returns (problems, info) with problems a list of
     (signature, detail)."""
     import dask
@@ -532,7 +728,13 @@ def evaluate(prog, root, opt):
             try:
                 denv, cap = run_dask(prog, rec)
             except Exception as e:
-                return [("construction-raises", f"{type(e).__name__}: {str(e)[:200]}")], info
+                msg = f"{type(e).__name__}: {str(e)[:200]}"
+                # attribution: does the very same call construct with a function that takes neither block_info nor
+                # block_id?  Then building the payload is what raises (the payload builder indexes a layout other than
+                # the one it was given); otherwise the call as such is refused (not a block_info matter)
+                if not constructs_plain(prog):
+                    return [("construction-raises", msg)], info
+                return [("payload-construction-raises", msg + " (the same call with a function that takes no block_info/block_id constructs)")], info
             npenv = run_numpy(prog, cap)
             rec.live = True
             try:
@@ -544,10 +746,13 @@ def evaluate(prog, root, opt):
                 if k is None:
                     # does an INPUT of the map_blocks call already fail to compute on its own?  Then the
                     # failure lies below the call (not a block_info matter)
+                    anc0 = P.prog_ancestry(prog)
                     for st in prog:
                         if st["op"] != "mb_rec":
                             continue
                         for a in st["args"]:
+                            if "mb_rec" in anc0.get(a, set()) or any(s3["out"] == a and s3["op"] == "mb_rec" for s3 in prog):
+                                continue  # fed by another recorded call: its failure IS a map_blocks matter
                             try:
                                 run_dask(prog[: prog.index(st)], Recorder())[0][a].compute()
                             except Exception as e2:
@@ -564,11 +769,43 @@ def evaluate(prog, root, opt):
     info["npenv"] = npenv
     info["rec"] = rec
     for st in mbs:
-        expect_full = prog[-1] is st  # nothing above the call: every block of the grid must be produced
-        problems += check_calls(rec.calls, cap[st["out"]], npenv, expect_full)
+        # nothing above the call selects part of it (only a getitem can cull): every block of the grid must be produced
+        above = prog[prog.index(st) + 1:]
+        expect_full = not any(s2["op"] in ("getitem", "boolmask_1d") for s2 in above)
+        c = cap[st["out"]]
+        if not st.get("like"):
+            try:
+                want_oc = expected_out_chunks(st, c["layouts"])
+            except Exception:
+                want_oc = None
+            if want_oc is not None and want_oc != c["out_chunks"]:
+                problems.append(("advertised-output-chunks", f"map_blocks advertises chunks {c['out_chunks']}; documented: {want_oc} (input layouts {c['layouts']}, "
+                                 f"chunks={st.get('chunks')}, new_axis={st.get('new_axis')}, drop_axis={st.get('drop_axis')})"))
+        problems += check_calls([cl for cl in rec.calls if cl.get("uid") == c["uid"]], c, npenv, expect_full)
     want = npenv[root]
     if np.asarray(got).shape != want.shape or not np.array_equal(got, want):
         problems.append(("program-value", f"result differs from the NumPy value computed from the call-time layout: got {np.asarray(got).tolist()!r:.150} want {want.tolist()!r:.150}"))
+    if not problems and opt and probe:
+        # targeted: the per-block task path of every recorded call is probed for all block ids; a suspicious lookup is
+        # lifted to a real computation in which the call IS fused (an elementwise op directly above it)
+        for st in mbs:
+            pb = probe_task_path(denv[st["out"]], cap[st["out"]]["out_chunks"])
+            if pb is None:
+                info["task_path_probe"] = info.get("task_path_probe", "n/a")
+                continue
+            info["task_path_probe"] = "probed"
+            if not pb:
+                continue
+            i = prog.index(st)
+            lifted = [dict(s2) for s2 in prog[: i + 1]] + [{"out": st["out"] + "f", "op": "neg", "args": [st["out"]]}]
+            try:
+                pr2, _ = evaluate(lifted, st["out"] + "f", True, probe=False)
+            except Exception:
+                pr2 = []
+            if pr2:
+                info["lifted"] = (lifted, st["out"] + "f")
+                return [(sg, d + f"  [found by probing Blockwise._task: {pb[0][1]}]") for sg, d in pr2], info
+            info["task_path_probe"] = "mismatch-not-confirmed: " + pb[0][1]
     return problems, info
 
 
@@ -591,7 +828,9 @@ def f_loc(loc):
 
 
 def f_spec(spec):
-    if spec is None:
+    if spec is None or len(spec) == 0:
+        # chunks=() is only accepted for a 0-d result, where it means the same as chunks=None (in the code and in the
+        # model: `mapBlocks` with `some []`); the line protocol has no token for an empty spec
         return "N"
     return ";".join(f"i{int(c)}" if not isinstance(c, (list, tuple)) else f_nl(c) for c in spec)
 
@@ -600,9 +839,10 @@ def corr_from_calls(step, c, calls):
     """correspondence pairs from recorded payloads of one map_blocks step"""
     pairs = []
     layouts = c["layouts"]
-    nd = max(len(l) for l in layouts)
-    drop = [d % nd for d in (step.get("drop_axis") or [])]
-    new = step.get("new_axis")
+    nd = max([len(l) for l in layouts], default=0)
+    drop = step_drop(step, nd)
+    new = step_new(step)
+    arrpos = arg_positions(len(layouts), step.get("scalars"))
     head = f"{f_nl(drop)} {'N' if new is None else f_nl(new)} {f_spec(step.get('chunks'))}"
     tail = " ".join(f_ll(l) for l in layouts)
     pairs.append((f"bi.mb {head} {tail}", None))  # impl filled by caller (needs out_ind): compare out chunks only
@@ -615,7 +855,7 @@ def corr_from_calls(step, c, calls):
         pairs.append((f"bi.info {f_ll(c['out_chunks'])} {f_nl(bid)}",
                       f"ok loc={f_loc(o['array-location'])} shape={f_nl(o['chunk-shape'])} num={f_nl(o['num-chunks'])}"))
         parts = []
-        for i in range(len(layouts)):
+        for i in arrpos:
             inf = bi[i]
             parts.append(f"{f_nl(inf['chunk-location'])} {f_loc(inf['array-location'])} {f_nl(inf['num-chunks'])} {f_nl(call['blocks'][i].shape)}")
         parts.append(f"{f_loc(o['array-location'])} {f_nl(o['num-chunks'])} {f_nl(o['chunk-shape'])}")
@@ -676,12 +916,21 @@ def run(ctx, replay=None):
         "sliding-window reduction) -> map_blocks with a recording function (1-2 inputs, drop_axis/new_axis/chunks=, "
         "block_info/block_id/both; for 2 inputs also an honest function shaped like the first input with the most blocks whose "
         "produced block shape must equal block_info[None]['chunk-shape']) -> 0-3 consumers (culling slice/rechunk/reduce/elemwise with a differently chunked array/"
-        "transpose); each under optimize-graph True and False; distinct by (producer kinds, call variant, consumer kinds, optimize)"
+        "transpose); each under optimize-graph True and False; distinct by (producer kinds, call variant, consumer kinds, optimize).  "
+        "Keyword stream (props_ext/c20_kwargs.py): per round the full product {plain, chunks=, new_axis, new_axis with several chunks on the created "
+        "axis, implicit new axes, drop_axis, drop+new, drop+new multi-chunk, drop+chunks} x {from_array, elementwise below one/all inputs, binary "
+        "elementwise below, rechunk below} x {nothing, elementwise, binary elementwise, culling slice, reduction, elementwise+slice, a second recorded "
+        "map_blocks} above; 0-3 right-aligned inputs of rank 1-3 incl. mixed ranks, int/negative/list spellings, enforce_ndim, meta, name, token, "
+        "non-array positional arguments, block_info/block_id/both; the block value encodes the identity the function was told; quick 2 rounds"
     )
     ctx.assumptions = [
         "the layout 'advertised when the call was made' is x.chunks of every input and y.chunks of the result, read right after the call",
         "calls made outside compute() (meta inference) are ignored",
         "index-label alignment of multiple inputs (trailing axes) is taken from the map_blocks documentation (brute-force spec in this file)",
+        "a call that only the block_info/block_id payload builder refuses (the same call with a function taking neither keyword constructs) "
+        "is reported as payload-construction-raises; a call refused either way is not a C20 matter",
+        "the fused task path (Blockwise._task / FusedBlockwise payload lookup) and enforce_ndim/meta/name/token are covered by the search only; "
+        "the Lean model (bi.*) covers labels, output chunks and the per-input / output payload for drop_axis, new_axis, chunks= and mixed ranks",
     ]
     if replay is not None and replay.get("case", {}).get("grid"):  # harness/props_ext/c02_grid.py
         from harness.props_ext import c02_grid
@@ -719,6 +968,53 @@ def run(ctx, replay=None):
     corr_pairs = []
     mb_pairs = []
     n_done = 0
+    def process(prog, root, key):
+        mbst = next(s for s in prog if s["op"] == "mb_rec")
+        i_mb = prog.index(mbst)
+        if key is None:
+            kinds_below = tuple(sorted({st["op"] for st in prog[:i_mb]}))
+            variant = (mbst["kw"], bool(mbst.get("like")), len(mbst["args"]), bool(mbst.get("drop_axis")), mbst.get("new_axis") is not None, mbst.get("chunks") is not None)
+            above = tuple(st["op"] for st in prog[i_mb + 1:] if st["op"] != "src")
+            key = (kinds_below[-3:], variant, above)
+        for opt in (True, False):
+            problems, info = evaluate(prog, root, opt)
+            ctx.count(key + (opt,), n=max(1, info.get("calls", 1)))
+            if n_done <= 3 or (key and key[0] == "kw" and ctx_samples["kw"] < 3):
+                if key and key[0] == "kw":
+                    ctx_samples["kw"] += 1
+                ctx.sample({"program": describe(prog), "opt": opt, "calls": info.get("calls")})
+            if str(info.get("task_path_probe", "")).startswith("mismatch-not-confirmed"):
+                ctx.notes["task_path_probe_mismatch_not_confirmed"] = ctx.notes.get("task_path_probe_mismatch_not_confirmed", 0) + 1
+                ctx.notes.setdefault("task_path_probe_mismatch.example", describe(prog) + " :: " + info["task_path_probe"])
+            if info.get("task_path_probe") == "probed":
+                ctx.notes["task_path_probed_calls"] = ctx.notes.get("task_path_probed_calls", 0) + 1
+            if problems and problems[0][0] == "producer-raises":
+                ctx.notes["producer-raises(not C20)"] = ctx.notes.get("producer-raises(not C20)", 0) + 1
+                ctx.notes.setdefault("producer-raises.example", describe(prog) + " :: " + problems[0][1])
+                problems = []
+            if problems:
+                sig, detail = problems[0]
+                fprog, froot = info.get("lifted", (prog, root))
+                case = {"prog": fprog, "root": froot, "opt": opt, "program": describe(fprog), "detail": detail, "all": [p[0] for p in problems[:6]]}
+                sig_seen[sig] = sig_seen.get(sig, 0) + 1
+                if sig not in ("swv-layout-drift",) and sig_seen[sig] <= 3:  # shrinking re-runs the program many times
+                    small = shrink(fprog, froot, opt, sig)
+                    if small is not None:
+                        case.update({"prog": small[0], "root": small[1], "program": describe(small[0])})
+                ctx.fail(sig, case, detail)
+            elif "rec" in info and len(corr_pairs) < corr_cap["limit"]:
+                c = info["cap"][mbst["out"]]
+                prs = corr_from_calls(mbst, c, [cl for cl in info["rec"].calls if cl.get("uid") == c["uid"]])
+                # first pair: output chunks of the real call
+                req = prs[0][0]
+                nd = max([len(l) for l in c["layouts"]], default=0)
+                out_ind, _ = out_labels([len(l) for l in c["layouts"]], step_drop(mbst, nd), step_new(mbst), mbst.get("chunks"))
+                mb_pairs.append((req, f"ok ind={f_nl(out_ind)} out={f_ll(c['out_chunks'])}"))
+                corr_pairs.extend(prs[1:])
+
+    ctx_samples = {"kw": 0}
+    sig_seen = {}
+    corr_cap = {"limit": ctx.scale(1500, 20000)}
     todo = [(p, p[-1]["out"]) for p in corpus]
     tries = 0
     while n_done < NP + len(corpus):
@@ -741,37 +1037,23 @@ def run(ctx, replay=None):
                 continue
             prog, npenv0, root = r
         n_done += 1
-        kinds_below = tuple(sorted({st["op"] for st in prog[: next(i for i, s in enumerate(prog) if s["op"] == "mb_rec")]}))
-        mbst = next(s for s in prog if s["op"] == "mb_rec")
-        variant = (mbst["kw"], bool(mbst.get("like")), len(mbst["args"]), bool(mbst.get("drop_axis")), mbst.get("new_axis") is not None, mbst.get("chunks") is not None)
-        above = tuple(st["op"] for st in prog[prog.index(mbst) + 1:] if st["op"] != "src")
-        for opt in (True, False):
-            problems, info = evaluate(prog, root, opt)
-            ctx.count((kinds_below[-3:], variant, above, opt), n=max(1, info.get("calls", 1)))
-            if n_done <= 3:
-                ctx.sample({"program": describe(prog), "opt": opt, "calls": info.get("calls")})
-            if problems and problems[0][0] == "producer-raises":
-                ctx.notes["producer-raises(not C20)"] = ctx.notes.get("producer-raises(not C20)", 0) + 1
-                ctx.notes.setdefault("producer-raises.example", describe(prog) + " :: " + problems[0][1])
-                problems = []
-            if problems:
-                sig, detail = problems[0]
-                case = {"prog": prog, "root": root, "opt": opt, "program": describe(prog), "detail": detail, "all": [p[0] for p in problems[:6]]}
-                if sig not in ("swv-layout-drift",):
-                    small = shrink(prog, root, opt, sig)
-                    if small is not None:
-                        case.update({"prog": small[0], "root": small[1], "program": describe(small[0])})
-                ctx.fail(sig, case, detail)
-            elif "rec" in info and len(corr_pairs) < ctx.scale(1500, 20000):
-                c = info["cap"][mbst["out"]]
-                prs = corr_from_calls(mbst, c, info["rec"].calls)
-                # first pair: output chunks of the real call
-                req = prs[0][0]
-                nd = max(len(l) for l in c["layouts"])
-                drop = [d % nd for d in (mbst.get("drop_axis") or [])]
-                out_ind, _ = out_labels([len(l) for l in c["layouts"]], drop, mbst.get("new_axis"), mbst.get("chunks"))
-                mb_pairs.append((req, f"ok ind={f_nl(out_ind)} out={f_ll(c['out_chunks'])}"))
-                corr_pairs += prs[1:]
+        process(prog, root, None)
+    # ---- the kwarg space of map_blocks jointly with fusion context (harness/props_ext/c20_kwargs.py)
+    from harness.props_ext import c20_kwargs
+    t_kw = _time.time()
+    n_kw = 0
+    corr_cap["limit"] = len(corr_pairs) + ctx.scale(6000, 40000)
+    for prog, root, key in c20_kwargs.cases(rng, ctx.scale(2, 10)):
+        if _time.time() - t_kw > ctx.scale(38, 300) or ctx.elapsed() > ctx.scale(110, 570):
+            ctx.notes["kwargs_stream_stopped_early_at_program"] = n_kw
+            break
+        n_kw += 1
+        process(prog, root, key)
+    ctx.notes["kwargs_programs"] = n_kw
+    ctx.notes["kwargs_seconds"] = round(_time.time() - t_kw, 1)
+    ctx.notes["random_stream_seconds"] = round(t_kw - t_search, 1)
+    for k, v in c20_kwargs.NOTES.items():
+        ctx.notes["kwgen." + k] = v
     ctx.notes["programs"] = n_done
     for k, v in GEN_NOTES.items():
         ctx.notes["gen." + k] = v
@@ -810,9 +1092,18 @@ def shrink(prog, root, opt, sig):
         changed = False
         cur, r = best
         for i, st in enumerate(cur):
-            if st["op"] in ("src", "mb_rec") or len(st.get("args", [])) != 1:
+            if st["op"] in ("src", "mb_rec") or len(st.get("args", [])) not in (1, 2):
                 continue
+            # a binary elementwise step is replaced by its first operand of the same shape (if any)
             sub = st["args"][0]
+            if len(st["args"]) == 2:
+                if st["op"] not in P.BINARY:
+                    continue
+                shp = {s3["out"]: s3.get("shape") for s3 in cur if s3["op"] == "src"}
+                same = [a for a in st["args"] if shp.get(a) is not None and all(shp.get(b) in (None, shp[a]) for b in st["args"])]
+                if not same:
+                    continue
+                sub = same[0]
             cand = []
             for s2 in cur[:i] + cur[i + 1:]:
                 s2 = dict(s2)
@@ -827,4 +1118,22 @@ def shrink(prog, root, opt, sig):
                     break
             except Exception:
                 continue
+    # 3. drop the optional keywords of the call that do not matter for the failure
+    for k in ("enforce_ndim", "meta", "name", "token", "scalars", "method"):
+        cur, r = best
+        if not any(st["op"] == "mb_rec" and st.get(k) for st in cur):
+            continue
+        cand = [{kk: vv for kk, vv in st.items() if kk != k} if st["op"] == "mb_rec" else st for st in cur]
+        if fails(cand, r):
+            best = (cand, r)
+    # 4. remove steps nothing depends on any more
+    cur, r = best
+    while True:
+        used = {a for st in cur for a in st.get("args", [])} | {r}
+        dead = [st for st in cur if st["out"] not in used]
+        if not dead:
+            break
+        cur = [st for st in cur if st["out"] in used]
+    if cur != best[0] and fails(cur, r):
+        best = (cur, r)
     return best
